@@ -76,7 +76,34 @@ var vxC19Ctx = [][2]string{
 	{"type I interface{ M()", " }\n"},
 	{"x := []struct{ A, B int }{{1,", " 2}}\n"},
 	{"var f func(a int, b ...string)", "\n"},
+	// declaration groups
+	{"type (\n\tA = int\n\tB ", "string\n)\n"},
+	{"type (\n\tA ", "int\n\tB = string\n)\n"},
+	{"const (\n\ta = iota\n\tb", "\n\tc\n)\n"},
+	{"var a, b ", "= 1, 2\n"},
+	{"func (p *T) m(a int", ") {\n}\n"},
+	{"type T ", "int\n"},
 }
+
+// one-line function literals and declarations whose size is around the one-line limit (100), written with
+// surplus blanks in front of "func": the window extends the string literal by 0..N bytes
+func init() {
+	for k := 60; k <= 84; k += 3 {
+		lit := ""
+		for i := 0; i < k; i++ {
+			lit += "x"
+		}
+		vxC19Ctx = append(vxC19Ctx, [2]string{"f   :=   func(a, b int) string { return \"" + lit, "\" }\necho f\n"})
+	}
+	for k := 62; k <= 80; k += 6 {
+		lit := ""
+		for i := 0; i < k; i++ {
+			lit += "x"
+		}
+		vxC19Ctx = append(vxC19Ctx, [2]string{"func g() {\n        f := func(a, b int) string { return \"" + lit, "\" }\n        echo f\n}\n"})
+	}
+}
+
 
 func vxFmtSig(n ast.Node) string {
 	s := "(" + vxKind(n) + ":" + vxLabel(n)
